@@ -166,6 +166,9 @@ func (e *executor) execCall(fr *frame, st *State, in *Instr) error {
 			}
 			e.oblige(fr, st, "inbounds", tagOf(in), e.boundsGoal(st, dst.P, int64(n), true), in.Raw)
 			bv := intVal(val.T, 8)
+			e.rangeEvent(st, dst.P, int(n))
+			e.noStoreEvents = true
+			defer func() { e.noStoreEvents = false }()
 			for i := uint64(0); i < n; i++ {
 				p := &Ptr{Reg: dst.P.Reg, Off: e.tm.addConst(dst.P.Off, i), OffUB: satAdd(dst.P.OffUB, i), Cands: dst.P.Cands}
 				if err := e.storeMem(st, p, bv); err != nil {
@@ -210,6 +213,9 @@ func (e *executor) execCall(fr *frame, st *State, in *Instr) error {
 				offs = append(offs, i)
 				i += ch
 			}
+			e.rangeEvent(st, dst.P, int(n))
+			e.noStoreEvents = true
+			defer func() { e.noStoreEvents = false }()
 			for k, v := range vals {
 				p := &Ptr{Reg: dst.P.Reg, Off: e.tm.addConst(dst.P.Off, offs[k]), OffUB: satAdd(dst.P.OffUB, offs[k]), Cands: dst.P.Cands}
 				if err := e.storeMem(st, p, v); err != nil {
@@ -403,6 +409,7 @@ func (e *executor) execCall(fr *frame, st *State, in *Instr) error {
 		ok0 := e.tm.icmp("eq", rv.T, lit(0, rv.W))
 		off := e.tm.zext(args[1].T, args[1].W, 64)
 		e.tm.axiom("store_bytes:"+rv.T.S, smt.Implies(ok0, e.tm.icmp("ule", e.tm.addConst(off, n), st.pktLen)), rv.T.S)
+		e.pktOpaque = true
 		old := e.flush(st.regMem(e, ridPacket))
 		arr := old.Base
 		for i, b := range bytes {
@@ -416,6 +423,7 @@ func (e *executor) execCall(fr *frame, st *State, in *Instr) error {
 		ok0 := e.tm.icmp("eq", rv.T, lit(0, rv.W))
 		off := e.tm.zext(args[1].T, args[1].W, 64)
 		e.tm.axiom("csum_replace:"+rv.T.S, smt.Implies(ok0, e.tm.icmp("ule", e.tm.addConst(off, 2), st.pktLen)), rv.T.S)
+		e.pktOpaque = true
 		old := e.flush(st.regMem(e, ridPacket))
 		arr := smt.Store(smt.Store(old.Base, off, e.fresh("csum_b0", 8).T), e.tm.addConst(off, 1), e.fresh("csum_b1", 8).T)
 		st.mem[ridPacket] = &RegMem{Base: e.tm.named("mem", smt.Ite(ok0, arr, old.Base)), Ov: map[int64]Byte{}}
@@ -478,4 +486,18 @@ func (e *executor) siteOrdOf(f *Function, in *Instr) int {
 		}
 	}
 	return e.siteOrd[in]
+}
+
+// rangeEvent records a multi-byte packet write (memset/memcpy) as one store
+// event without tracked value.
+func (e *executor) rangeEvent(st *State, p *Ptr, n int) {
+	for _, id := range p.Cands {
+		if id == ridPacket {
+			pc := st.pc
+			if len(p.Cands) > 1 {
+				pc = smt.And(pc, smt.Eq(p.Reg, regLit(id)))
+			}
+			e.recordPktStore(st, pc, p.Off, n, nil)
+		}
+	}
 }
